@@ -807,6 +807,17 @@ func runParent(c *Check, tier string, root uint64) int {
 				hit = true
 			}
 		}
+		if !hit && c.DeathSig != nil {
+			// the committed example may be one in which the process dies: classify its output
+			if rb, err := os.ReadFile(path); err == nil {
+				var rf ReplayFile
+				if json.Unmarshal(rb, &rf) == nil {
+					if sig, _ := c.DeathSig(string(outb), rf.Case); sig != "" && matchKnown(known, Violation{Property: c.ID, Sig: sig}) == k {
+						hit = true
+					}
+				}
+			}
+		}
 		stats["pinned_known_finding_cases_run"]++
 		if hit {
 			knownHits[k.Property+"|"+k.Sig]++
